@@ -249,3 +249,92 @@ def one(names, what, where=""):
     if len(names) != 1:
         raise AnchorMissing(f"{where}: expected exactly one {what}, found {list(names)}")
     return names[0]
+
+
+def bind_roles(fn, roles, where=""):
+    """Resolve role names to the current local names of `fn`.
+
+    roles: ordered mapping  role -> spec, spec one of
+        ("assign", pattern[, idx])   target of an assignment / with-as / walrus whose value matches (idx: tuple element)
+        ("for", pattern[, idx])      target of a for loop whose iterable matches
+        ("recv", attr, argpattern)   receiver of a call  <recv>.<attr>(<arg0 matching>, ...)
+        ("return", None, idx)        idx-th element of the (single) tuple shape the function returns
+    pattern: str compared with norm(value) after substituting {role} by the names bound so far; a str starting with
+    "~" is a regular expression (fullmatch, after substitution, other text NOT escaped); or a callable(norm, node).
+    Every role must bind to exactly one name (fail closed).  Returns {role: current_name}."""
+    import re as _re
+
+    from .index import AnchorMissing
+
+    bound = {}
+
+    def matcher(pat):
+        if callable(pat):
+            return pat
+        p = pat
+        for r, cur in bound.items():
+            p = p.replace("{" + r + "}", cur)
+        if p.startswith("~"):
+            rx = _re.compile(p[1:], _re.S)
+            return lambda t, n: rx.fullmatch(t) is not None
+        return lambda t, n: t == p
+
+    for role, spec in roles.items():
+        kind = spec[0]
+        m = matcher(spec[1]) if kind not in ("recv", "return") else None
+        idx = spec[2] if len(spec) > 2 and kind != "recv" else None
+        if kind == "assign":
+            cands = bound_names(fn, m, nested=True)
+        elif kind == "for":
+            cands = [tuple(t) if len(t) > 1 else t[0] for t in loop_targets_nested(fn, m)]
+        elif kind == "return":
+            cands = list(dict.fromkeys(tuple(norm(e) for e in r.value.elts) for r in walk_own(fn) if isinstance(r, ast.Return) and isinstance(r.value, ast.Tuple)))
+        elif kind == "recv":
+            am = matcher(spec[2])
+            cands = []
+            for c in ast.walk(fn):
+                if isinstance(c, ast.Call) and call_attr(c) == spec[1] and c.args and am(norm(c.args[0]), c.args[0]) and call_recv(c) and call_recv(c) not in cands:
+                    cands.append(call_recv(c))
+        else:
+            raise ValueError(kind)
+        if idx is not None:
+            cands = [c[idx] for c in cands if isinstance(c, tuple) and len(c) > idx]
+        cands = list(dict.fromkeys(cands))
+        if len(cands) != 1 or not isinstance(cands[0], str) or not cands[0].isidentifier():
+            raise AnchorMissing(f"{where}: cannot bind role `{role}` ({spec[:2]}): candidates {cands}")
+        bound[role] = cands[0]
+    return bound
+
+
+def loop_targets_nested(fn, iter_pred):
+    out = []
+    for n in ast.walk(fn):
+        if isinstance(n, (ast.For, ast.AsyncFor, ast.comprehension)) and iter_pred(norm(n.iter), n.iter):
+            t = n.target
+            out.append([norm(e) for e in t.elts] if isinstance(t, (ast.Tuple, ast.List)) else [norm(t)])
+    return out
+
+
+def canonicalise(fn, bound):
+    """Copy of `fn` in which every local currently called bound[role] is called `role` (positions preserved).  Rules
+    written against the role names then do not depend on what the locals happen to be called.  A role name that is
+    already used by a *different* local would be captured: that is reported as an analysis error."""
+    import copy
+
+    from .index import AnalysisError
+
+    ren = {cur: role for role, cur in bound.items() if cur != role}
+    if not ren:
+        return fn
+    # names of the function's own scope (a nested def's parameter of the same name shadows, it does not clash)
+    names = {n.id for n in walk_own(fn) if isinstance(n, ast.Name)} | {a.arg for a in fn.args.args + fn.args.kwonlyargs + fn.args.posonlyargs}
+    clash = [r for r in ren.values() if r in names and r not in ren]
+    if clash:
+        raise AnalysisError(f"{fn.name}: role name(s) {clash} are used by other locals; cannot canonicalise")
+    new = copy.deepcopy(fn)
+    for n in ast.walk(new):
+        if isinstance(n, ast.Name) and n.id in ren:
+            n.id = ren[n.id]
+        elif isinstance(n, ast.arg) and n.arg in ren:
+            n.arg = ren[n.arg]
+    return new
